@@ -4,7 +4,7 @@
 EXTENDS EchHello, Json
 
 AllOuters == {"O1", "O2", "O3", "O4"}
-AllInners == {"I1", "I2", "I3", "I4"}
+AllInners == {"I1", "I2", "I3", "I4", "I5"}
 O12 == {"O1", "O2"}
 I12 == {"I1", "I3"}
 KL_one   == { <<"K1">> }
